@@ -100,6 +100,7 @@ type Gen struct {
 	allowedTargets map[string][]frameTarget
 	lemmasUsed map[string]bool
 	declared map[string]bool
+	localRefs map[string]string // ref term of a non-escaping local alloc (and its sub-objects) -> component prefix
 	ghostTypes map[string]types.Type
 	localTypes map[string]types.Type // $local:<name> -> Go type
 	localAddr  map[string]*Val       // locals that live in memory: pointer to the cell
@@ -276,7 +277,7 @@ func (g *Gen) readLoc(s *State, l *Loc) string {
 	if isArray(l.Ty) && l.Idx == "" {
 		// whole array value stored as an element-array entry
 		at := l.Ty.Underlying().(*types.Array)
-		c := g.comp(elemComp(at.Elem()), "(Array Int "+g.st.sortOf(at.Elem())+")")
+		c := g.comp(g.localRefs[l.Ref]+elemComp(at.Elem()), "(Array Int "+g.st.sortOf(at.Elem())+")")
 		return sel(g.heapTerm(s, c.Name), l.Ref)
 	}
 	if l.Idx != "" {
@@ -290,7 +291,7 @@ func (g *Gen) readLoc(s *State, l *Loc) string {
 func (g *Gen) writeLoc(s *State, l *Loc, v string) {
 	if isArray(l.Ty) && l.Idx == "" {
 		at := l.Ty.Underlying().(*types.Array)
-		c := g.comp(elemComp(at.Elem()), "(Array Int "+g.st.sortOf(at.Elem())+")")
+		c := g.comp(g.localRefs[l.Ref]+elemComp(at.Elem()), "(Array Int "+g.st.sortOf(at.Elem())+")")
 		g.setHeap(s, c.Name, store(g.heapTerm(s, c.Name), l.Ref, v))
 		return
 	}
@@ -316,14 +317,18 @@ func (g *Gen) fieldOf(ref string, structT types.Type, i int) (loc *Loc, subref s
 	u := structT.Underlying().(*types.Struct)
 	f := u.Field(i)
 	ft = f.Type()
+	pfx := g.localRefs[ref]
 	if isStruct(ft) || isArray(ft) {
 		subref = sx("fld", g.fieldID(structT, fieldName(u, i)), ref)
+		if pfx != "" {
+			g.localRefs[subref] = pfx
+		}
 		if isArray(ft) {
 			return &Loc{Comp: "", Ref: subref, Ty: ft}, subref, ft
 		}
 		return nil, subref, ft
 	}
-	return &Loc{Comp: fieldComp(structT, fieldName(u, i)), Ref: ref, Ty: ft}, "", ft
+	return &Loc{Comp: pfx + fieldComp(structT, fieldName(u, i)), Ref: ref, Ty: ft}, "", ft
 }
 
 // loadStruct builds the struct value stored at ref.
@@ -371,7 +376,7 @@ func (g *Gen) locOfPtr(p *Val, elemT types.Type) *Loc {
 	if isArray(elemT) {
 		return &Loc{Ref: p.T, Ty: elemT}
 	}
-	return &Loc{Comp: cellComp(elemT), Ref: p.T, Ty: elemT}
+	return &Loc{Comp: g.localRefs[p.T] + cellComp(elemT), Ref: p.T, Ty: elemT}
 }
 
 func (g *Gen) storeThrough(s *State, p *Val, elemT types.Type, v string) {
